@@ -214,7 +214,67 @@ def rule_r3(chk):
     chk.ob("C08-R3", "fords.kalmans._LogDataslate.store", ok, "xi = U[curr rows, :] @ alpha, or plain row selection without a transform", m.loc(st))
 
 
+def rule_r10(chk, rid="C08-R10"):
+    chk.rule(rid, "every transition variable that a measurement equation reads, at whatever lag, is an element of the state vector: "
+             "_adjust_for_measurement_equations followed by _create_system_transition_vector evaluated finitely on token sets with "
+             "contemporaneous, once- and twice-lagged measurement incidence - each measurement token (q, s) of a transition variable is in "
+             "the resulting vector, and the vector still spans min_shift+1 .. max_shift of the transition equations' own tokens",
+             floor=4, shape_independent=True)
+    from .. import fin
+    dm = chk.repo.mod("irispie.fords.descriptors")
+    im = chk.repo.mod("irispie.incidences.main")
+    adj = dm.func("_adjust_for_measurement_equations")
+    vec = dm.func("_create_system_transition_vector")
+    shifts = im.func("get_some_shift_by_quantities")
+    for q_ in ("_adjust_for_measurement_equations", "_create_system_transition_vector"):
+        chk.saw(dm, q_)
+    chk.saw(im, "get_some_shift_by_quantities")
+
+    class _Tok(fin.FinObj):
+        def __init__(self, qid, shift):
+            super().__init__(qid=qid, shift=shift)
+        def __eq__(self, o):
+            return isinstance(o, _Tok) and (self.qid, self.shift) == (o.qid, o.shift)
+        def __hash__(self):
+            return hash((self.qid, self.shift))
+        def __repr__(self):
+            return f"x{self.qid}{{{self.shift}}}"
+    MEAS, TRAN = "measurement equation", "transition equation"
+    kinds = {0: "tv", 1: "tv", 2: "tv", 5: "mv", 6: "ms"}
+    env = {"EquationKind.MEASUREMENT_EQUATION": MEAS, "EquationKind.TRANSITION_EQUATION": TRAN, "QuantityKind.TRANSITION_VARIABLE": ("tv",),
+           "QuantityKind.MEASUREMENT_VARIABLE": ("mv",)}
+    funcs = dict(fin.STDLIB_FUNCS)
+    funcs["Token"] = _Tok
+    funcs["_incidence.get_some_shift_by_quantities"] = lambda toks, something: fin.run_function(shifts, {params(shifts)[0]: list(toks), params(shifts)[1]: something}, funcs, env)
+    cases = (
+        ("lag equal to the deepest transition lag", {(0, 0), (0, -1), (1, 0)}, {(5, 0), (0, -1), (6, 0)}),
+        ("lag of a variable without transition lags", {(0, 0), (1, 0), (1, 1)}, {(5, 0), (0, 0), (0, -1)}),
+        ("lag beyond the deepest transition lag", {(0, 0), (0, -1), (1, 0)}, {(5, 0), (0, -3), (1, -1)}),
+        ("contemporaneous only", {(0, 0), (0, -2), (1, 0), (2, 1), (2, 0)}, {(5, 0), (0, 0), (2, 0)}),
+        ("lag covered by the transition equations", {(0, 0), (0, -2), (1, 0)}, {(5, 0), (0, -1)}),
+    )
+    for label, tran, meas in cases:
+        key = f"fords.descriptors._adjust_for_measurement_equations[{label}]"
+        tt = {_Tok(*x) for x in tran}
+        eqs = [fin.FinObj(kind=TRAN, incidence=tuple(sorted(tt, key=lambda t: (t.qid, t.shift)))), fin.FinObj(kind=MEAS, incidence=tuple(_Tok(*x) for x in sorted(meas)))]
+        try:
+            adjusted = fin.run_function(adj, dict(zip(params(adj), (set(tt), eqs, kinds))), funcs, env)
+            vector = list(fin.run_function(vec, {params(vec)[0]: adjusted}, funcs, env))
+        except (fin.NotFinite, fin.Raised, TypeError, AttributeError, KeyError) as ex:
+            chk.undecided(rid, key, f"not finitely evaluable: {type(ex).__name__}: {ex}", dm.loc(adj))
+            continue
+        missing = [t for t in (_Tok(*x) for x in sorted(meas)) if kinds[t.qid] == "tv" and t not in vector]
+        # the transition equations' own needs are still met
+        own = [_Tok(q, s) for q in {t.qid for t in tt} for s in range(min(min(t.shift for t in tt if t.qid == q), -1) + 1, max(t.shift for t in tt if t.qid == q) + 1)]
+        lost = [t for t in own if t not in vector]
+        bad = (f"measurement equations read {missing} but the state vector is {sorted(vector, key=lambda t: (t.qid, -t.shift))}: the derivative has no column in Z "
+               "and is silently dropped" if missing else f"the state vector lost {lost}, which the transition equations need" if lost else None)
+        chk.ob(rid, key, bad is None, bad or f"state vector {sorted(vector, key=lambda t: (t.qid, -t.shift))} holds every transition variable the measurement equations read",
+               dm.loc(adj), sure=True)
+
+
 def run(chk):
+    chk.guard(rule_r10, chk)
     chk.guard(rule_r1, chk)
     chk.guard(rule_r2, chk)
     chk.guard(rule_r3, chk)
@@ -228,6 +288,8 @@ def run(chk):
     chk.guard(gens.apply, chk, "C08-R7", {"fords"}, 3, "per-period or per-variant work fed from an exhausted iterator is silently skipped")
     from .. import unused as _unused
     chk.guard(_unused.apply, chk, "C08-R91")
+    from .. import basis as _basis
+    chk.guard(_basis.apply, chk, "C08-R9")
     from .. import args as _args
     chk.guard(_args.apply, chk, "C08-R90", {'fords', 'simultaneous'}, 1)
     chk.assumptions = [
